@@ -75,6 +75,15 @@ def special_cases():
         out.append({"meta": dict(fx, container_constructor=nm), "services": {"s": dict(S, getter="G", must_getter=True)}, "parameters": {"p": "x%p2%", "p2": 1}})
         out.append({"meta": dict(fx), "services": {"s": dict(S, getter=nm)}})
     out.append({"meta": {"pkg": "main", "container_constructor": "main"}, "services": {"s": dict(S)}})
+    # an alias followed by a sub-path in which the alias text occurs again: only the first segment is the alias
+    out.append({"meta": {"pkg": "gen", "imports": {"fx": "probe/deep", "o": "probe/exp1", "x": "probe", "v": "probe/x-y"}},
+                "services": {"a": {"constructor": "fx/fx.NewA"}, "b": {"constructor": "o/os.NewA", "type": "*o/os.Obj", "getter": "GetB"},
+                             "c": {"value": "x/x-y/v2.Global"}, "d": {"constructor": "x/fx.NewA", "arguments": ["!value v/v2.Global"]}},
+                "decorators": [{"tag": "t", "decorator": "fx/fx.Dec1", "arguments": ["!value &o/os.GlobalVal"]}]})
+    # getters that collide only through the derived names: `ang` with its must-getter next to `Mustang`, `X` next to `XInContext`
+    out.append({"meta": dict(fx), "services": {"a": {"constructor": "fx.NewA", "getter": "ang", "must_getter": True}, "b": {"constructor": "fx.NewA", "getter": "Mustang"}}})
+    out.append({"meta": dict(fx, default_must_getter=True), "services": {"a": {"constructor": "fx.NewA", "getter": "Go"}, "b": {"constructor": "fx.NewA", "getter": "GoInContext"},
+                                                                     "c": {"constructor": "fx.NewA", "getter": "MustGo"}}})
     # todo services carrying what the validator would refuse on a real one (it skips todo services): a getter equal to another
     # service's getter / must-getter, a runtime method name, a helper name, a type and a value nobody can render
     for g in ["MustGetDB", "GetDB", "Root", "Get", "GetParam", "Container"] + template_helper_methods()[:3]:
@@ -176,7 +185,7 @@ def run(ctx, n=None):
             seen.add(re.sub(r'"[^"]*"', '"_"', yamltxt))
     # gofmt stability
     rc, out = core.sh(["gofmt", "-l", root], env=core.GOENV)
-    unstable = [l for l in out.splitlines() if l.endswith(".go") and "/g" in l]
+    unstable = [l for l in out.splitlines() if re.search(r"/g\d{3}s?/[^/]+\.go$", l)]
     for u in unstable:
         name = os.path.basename(os.path.dirname(u))
         files = next(f for (n_, m, p, f) in accepted if n_ == name)
